@@ -160,15 +160,15 @@ def export_histories(cfg, chk, steps=None):
     return [[expand(c) for c in h[1]] for h in tlaval.fast_tuples(r.out, "H")]
 
 
-def simulated_histories(n, depth, seed, chk):
+def simulated_histories(n, depth, seed, chk, cfg="SIM_Context.cfg"):
     """Random walks of FAContext over the larger alphabet (tlc -simulate); each walk prints its
     history from the Emit invariant when it reaches MaxSteps."""
-    r = tlc.run("MC_Context", "SIM_Context.cfg", workers=1,
+    r = tlc.run("MC_Context", cfg, workers=1,
                 extra=["-simulate", "num=%d" % n, "-depth", str(depth + 2), "-seed", str(seed)], timeout=3000)
     if r.invariant_violated:
         chk.fail("model:" + "+".join(r.invariant_violated), "FAContext.tla violates its invariant in simulation", r.error_trace())
     hs = [[expand(c) for c in h[1]] for h in tlaval.fast_tuples(r.out, "H")]
-    chk.cov.setdefault("model_runs", []).append(dict(config="SIM_Context.cfg -simulate", histories=len(hs), wall_s=round(r.wall, 2)))
+    chk.cov.setdefault("model_runs", []).append(dict(config=cfg + " -simulate", histories=len(hs), wall_s=round(r.wall, 2)))
     return hs
 
 
@@ -359,6 +359,8 @@ def run(tier, seed):
     hists = export_histories("HIST_Context.cfg", chk, steps=3 if tier == "quick" else 4)
     hists += export_histories("HIST_ContextSel.cfg", chk, steps=4)
     hists += simulated_histories(1500 if tier == "quick" else 40000, 12, seed + 1, chk)
+    # every fixed-arity operation kind of the package (the quantifier says "operations of every kind and arity")
+    hists += simulated_histories(600 if tier == "quick" else 15000, 24, seed + 2, chk, cfg="SIM_ContextAll.cfg")
     hists += pair_histories(seed + 2, 40 if tier == "quick" else 1500, chk)
     events = []
     for i, h in enumerate(hists):
